@@ -789,4 +789,3 @@ func init() {
 		},
 	})
 }
-
